@@ -7,7 +7,6 @@ namespace GFO
 abbrev Value := List Rat
 abbrev Para := List (String × Rat)
 
-def absQ (q : Rat) : Rat := if q < 0 then -q else q
 
 /-- `position2value`: `space_dim[position[n]]` for every dimension (Python indexing: negative wraps, else IndexError) -/
 def position2value : List (List Rat) → Pos → Except Err Value
